@@ -160,8 +160,10 @@ def run(tier, seed):
         t_mod[name] = [round(tb - t0, 1), round(time.time() - tb, 1)]
         if not b.ok:
             return b, None
-        # misuse cells are flagged risky and run in a forked copy of the driver (a crash costs a fork, not a restart)
-        cl = [["obs_risky" if cs[i].get("misuse") else "obs", cmap[i], bool(cs[i].get("misuse"))] for i in range(len(cs))]
+        # Every call runs in a forked copy of the driver (lib_excspec.PRELUDE obs_fork): death by signal is an observation
+        # attributed to exactly that call and costs a fork, not a restart.  The cells where the model itself predicts
+        # undefined behaviour (misuse) are the ones flagged risky for calls.run_calls.
+        cl = [["obs_fork", cmap[i], bool(cs[i].get("misuse"))] for i in range(len(cs))]
         if facts:
             cl.append(["facts", []])
         tr = time.time()
